@@ -4763,8 +4763,12 @@ void* picture_decision_kernel(void *input_ptr)
                     encode_context_ptr);
 
                 // If the Intra period length is 0, then introduce an intra for every picture
-                if (scs_ptr->intra_period_length == 0)
-                    pcs_ptr->cra_flag = EB_TRUE;
+                if (scs_ptr->intra_period_length == 0) {
+                    if (scs_ptr->intra_refresh_type == IDR_REFRESH)
+                        pcs_ptr->idr_flag = EB_TRUE;
+                    else
+                        pcs_ptr->cra_flag = EB_TRUE;
+                }
                 // If an #IntraPeriodLength has passed since the last Intra, then introduce a CRA or IDR based on Intra Refresh type
                 else if (scs_ptr->intra_period_length != -1) {
                     pcs_ptr->cra_flag =
